@@ -1,5 +1,5 @@
 import GoSquare.Proofs.CompactParse
-import GoSquare.Properties.C14
+import GoSquare.Proofs.C14Core
 /-! # C09 — transactions survive the compact-share encoding round trip
 
 (1) the model of `CompactShareSplitter` writes exactly `Spec.compactSeq` (for every list of
